@@ -559,6 +559,48 @@ pub fn check_corpus_file(path: &String, st: &mut Stats) -> Check {
     Ok(())
 }
 
+/// A well-formed line after a long run of malformed lines (and in a very long file) must still be reported, at its
+/// position: the iterator must not give up or lose count (thresholds 255/256, 4096/4097, 65535/65536/65537).
+#[derive(Clone, Debug, Serialize)]
+pub struct RunCase {
+    pub n: usize,
+    pub eol: &'static str,
+}
+
+pub fn check_run(c: &RunCase, st: &mut Stats) -> Check {
+    st.evaluations += 1;
+    let mut file = String::with_capacity(c.n * 12 + 200);
+    for i in 0..c.n {
+        file.push_str(if i % 3 == 0 { "garbage" } else if i % 3 == 1 { "a->b:" } else { "    void missingArrow()" });
+        file.push_str(c.eol);
+    }
+    file.push_str("com.example.Foo -> a:");
+    file.push_str(c.eol);
+    file.push_str("    1:2:void com.example.Bar.m(int):3:4 -> x");
+    file.push_str(c.eol);
+    file.push_str("also garbage");
+    let items = file_items(file.as_bytes()).map_err(|p| Fail::new("parse-panic", p))?;
+    let items: Vec<_> = items.into_iter().filter(|i| !matches!(i, Err(l) if strip_term(l).is_empty())).collect();
+    st.nontrivial(c.n as u64 * 31 + c.eol.len() as u64);
+    st.class("well-formed lines after a long run of malformed lines");
+    let want_class = Want::Class { original: "com.example.Foo".into(), obfuscated: "a".into() };
+    let want_method = Want::Method {
+        ty: "void".into(),
+        original: "m".into(),
+        obfuscated: "x".into(),
+        arguments: "int".into(),
+        original_class: Some("com.example.Bar".into()),
+        line_mapping: Some(LineMap { start: 1, end: 2, ostart: Some(3), oend: Some(4) }),
+    };
+    if items.len() != c.n + 3 {
+        return Err(Fail::new("run-item-count", format!("{} malformed lines + 2 well-formed + 1 malformed line yield {} items instead of {}", c.n, items.len(), c.n + 3)));
+    }
+    match (&items[c.n], &items[c.n + 1]) {
+        (Ok(a), Ok(b)) if want_matches(&want_class, a) && want_matches(&want_method, b) => Ok(()),
+        (a, b) => Err(Fail::new("run-wrong-record", format!("after {} malformed lines the class and method lines were reported as {a:?} and {b:?}", c.n))),
+    }
+}
+
 pub fn run(ctx: &Ctx) -> Report {
     let mut rep = Report::new(ID, "exploration", ctx);
     rep.rule = "(a) generated record ASTs (class/method/field/sourceFile/padded key-value headers; identifier alphabet incl. $ < > - [ ] digits, 2/3/4-byte UTF-8, long names; numbers 0..2^40; every combination of optional parts) printed canonically with terminators none/LF/CRLF/LFLF/CR, parsed alone (try_parse) and embedded between other lines (iter); expected record computed from the AST; plus one documented single violation per case (arrow missing/unspaced/half-spaced, class colon missing, indent 0/2/3/5/tab, start without end, return type missing) which must be an Err carrying the line. (b) bounded-exhaustive slot product indent x range x type x name x args x original-lines x arrow x obfuscated x terminator (+ class and header products): 0 bad slots => exact record, exactly 1 => Err, >=2 => totality only. (c) bounded-exhaustive: all strings of <=6 (quick) / <=7 (thorough) tokens over a 12-token alphabet against a strict hand-written recogniser of the documented grammar (recognised => exact record; every Err carries its line). (d) every line of the corpus files against the recogniser. evaluations = parse calls. Non-trivial = distinct well-formed lines with >=1 optional part / recognised well-formed lines, plus distinct single-violation lines.".into();
@@ -579,6 +621,13 @@ pub fn run(ctx: &Ctx) -> Report {
     chunks.reverse();
     rep.run_enum("tokens", &chunks, check_token_chunk);
     rep.stats.exhaustive.push(format!("all token strings of length <= {max_len} over the 12-token alphabet"));
+    let mut runs = Vec::new();
+    for n in ctx.tier.pick(&[255usize, 256, 4096, 4097, 65537][..], &[255usize, 256, 257, 4095, 4096, 4097, 65535, 65536, 65537, 200_000][..]) {
+        for eol in ["\n", "\r\n", "\r"] {
+            runs.push(RunCase { n: *n, eol });
+        }
+    }
+    rep.run_enum("runs", &runs, check_run);
     let files = super::c02::corpus_files();
     rep.run_enum("corpus", &files, check_corpus_file);
     rep
@@ -596,6 +645,7 @@ pub fn replay(stage: &str, case: &Value) -> Check {
             }
         }
         "tokens" => check_token_chunk(&TokenChunk { len: case["len"].as_u64().unwrap_or(1) as usize, first: case["first"].as_u64().unwrap_or(0) as usize }, &mut st),
+        "runs" => check_run(&RunCase { n: case["n"].as_u64().unwrap_or(0) as usize, eol: match case["eol"].as_str() { Some("\r\n") => "\r\n", Some("\r") => "\r", _ => "\n" } }, &mut st),
         "corpus" => check_corpus_file(&case.as_str().unwrap_or("").to_string(), &mut st),
         _ => Err(Fail::new("harness-replay", format!("unknown stage {stage}"))),
     }
